@@ -21,4 +21,10 @@ META = {
         note="Trusts the 10-line reference walk and the reference name resolver (refdict).",
         technique="runtime differential monitor: search results vs reference pre-order walk (pointer identity)",
     ),
+    "C16": dict(
+        text="Exploration: hundreds of thousands of request headers per run (boundary identifiers and all flag bytes enumerated, the rest sampled), every answer decoded by the reference codec and compared field by field; state-machine answers and the SCTP reply stream are observed on in-memory transports.",
+        design_ref="DESIGN.md section 4, C16",
+        note="Trusts refcodec's header/AVP framing; the stream half observes the stream number recorded by the in-memory SCTP backend behind the verif hook.",
+        technique="runtime monitor: field-by-field mirror oracle on serialised answers; transport-side stream log",
+    ),
 }
